@@ -3,11 +3,14 @@ C13 — Re-encoding a decoded PDU is stable and deterministic.
 -/
 import Smpp.Properties.SrcPduCodec
 import Smpp.Properties.SrcPduFrame
-import Smpp.Proofs.Roundtrip
+import Smpp.Proofs.Reencode
 import Smpp.Generated.Layouts
 
 namespace Smpp.Properties.C13
 open Smpp Smpp.Pdu Smpp.Generated
+
+theorem layouts_ok : ∀ L ∈ pduLayouts, LayoutOK L = true := by decide +kernel
+theorem layouts_registered : ∀ L ∈ pduLayouts, lookupLayout pduLayouts L.id = some L := by decide +kernel
 
 /-! ## determinism: the emitted octets do not depend on Go's map iteration order -/
 
@@ -78,6 +81,38 @@ theorem C13_redecode_partial (L : Layout) (hL : LayoutOK L = true) (hreg : looku
     (hlen : b'.length ≤ 65536) :
     unmarshal L b' = some (decodedOf L b'.length after) :=
   (unmarshal_marshal L hL h rest hty hwf b' after hm hlen).1
+
+/-- **C13 stability (full strength).**  Take ANY octet stream under ANY fragmentation that ReadPDU
+accepts, returning `v` of type `name`, not using the reserved data_coding 0xBF.  If Marshal accepts
+`v` and writes `b2` (a frame ReadPDU's 64 KiB limit admits) then
+ * Marshal left `v` as it was;
+ * ReadPDU on `b2`, under every fragmentation, returns the same type and the value `v2` = `v` with
+   TLVs of empty value dropped and the header restating `b2`'s length, consuming exactly `b2`;
+ * Marshal of `v2` writes exactly `b2` again and leaves `v2` as it was (so every further
+   decode/encode round repeats `v2`/`b2`). -/
+theorem C13_stable (s : Stream) (name : String) (v : List FVal)
+    (hread : (readPDU pduLayouts s).out = .ok name v) :
+    ∃ L ∈ pduLayouts, L.name = name ∧
+      (NoReserved L.isReplace v → ∀ b2 after, marshal L v = ⟨.ok b2, after⟩ → b2.length ≤ 65536 →
+        after = v ∧
+        (∀ cs : Stream, cs.flatten = b2 →
+          (readPDU pduLayouts cs).out = .ok name (relen b2.length (v.map normVal)) ∧
+          (readPDU pduLayouts cs).consumed = b2.length) ∧
+        marshal L (relen b2.length (v.map normVal)) = ⟨.ok b2, relen b2.length (v.map normVal)⟩) := by
+  obtain ⟨L, frame, hmem, hname, hun, hid⟩ :=
+    readPDU_ok_inv pduLayouts Smpp.Properties.C13.layouts_ok s name v hread
+  refine ⟨L, hmem, hname, ?_⟩
+  intro hbf b2 after hm hlen
+  have hL := layouts_ok L hmem
+  obtain ⟨hafter, hun2, hm2⟩ := reencode_stable L hL frame v hun hbf hid b2 after hm hlen
+  refine ⟨hafter, ?_, hm2⟩
+  intro cs hcs
+  obtain ⟨h, rest, rfl, hty, hwf⟩ := decoded_representable L hL frame v hun hbf b2 after hm
+  have hr := readPDU_marshal pduLayouts L hL (layouts_registered L hmem) h rest hty hwf b2 after hm hlen cs hcs
+  have hum := (unmarshal_marshal L hL h rest hty hwf b2 after hm hlen).1
+  rw [hun2] at hum
+  rw [← hname, Option.some.inj hum]
+  exact hr
 
 /-! ## non-vacuity -/
 example : encTagsIter [(7, [1]), (3, [2, 2]), (5, [])] = encTagsIter [(5, []), (7, [1]), (3, [2, 2])] :=
